@@ -63,7 +63,7 @@ def call_time_rule(repo: Repo, rep: Report, rid: str) -> None:
                 rep.fail(rid, key, bad, fi.loc(ld))
             else:
                 rep.ok(rid, key, "read at call time, flows only into a call argument / subscript / local", fi.loc(ld))
-    rep.floor(rid, "loads of <cstruct>.endian", n_loads, 12)
+    rep.floor(rid, "loads of <cstruct>.endian", n_loads, 6)
 
     # stores of an attribute named endian: only constructors of cstruct and of per-call objects
     for fi in repo.all_functions():
@@ -99,8 +99,12 @@ def call_time_rule(repo: Repo, rep: Report, rid: str) -> None:
                          and root_name(x) not in ("ExpressionParserError",)]
             glob = [x.id for x in walk_body(fi.node.body) if isinstance(x, ast.Name) and isinstance(x.ctx, ast.Load) and x.id not in fi.params
                     and x.id not in ("Struct", "func", "d", "exec", "range", "n", "num_fields", "f")]
-            rep.check(not any("endian" in a for a in free_attr), rid, f"{fi.key}:cache", f"cached function depends only on its parameters {fi.params}",
-                      f"cached function {fi.qualname} reads {free_attr}: the cache would remember a stale endianness", fi.loc())
+            # attributes of a *parameter* are not part of the cache key either: cls.cs.endian inside a function cached on (cls, count)
+            # pins the byte order that was current at the first call
+            cfg_attr = [norm(x) for x in walk_body(fi.node.body) if isinstance(x, ast.Attribute) and x.attr in ("endian", "pointer") and isinstance(x.ctx, ast.Load)]
+            rep.check(not any("endian" in a for a in free_attr) and not cfg_attr, rid, f"{fi.key}:cache", f"cached function depends only on its parameters {fi.params}",
+                      f"cached function {fi.qualname} reads {sorted(set(cfg_attr + [a for a in free_attr if 'endian' in a]))}: mutable configuration that is not part of "
+                      f"the cache key - the value current at the first call is remembered (changing cs.endian later has no effect for that key)", fi.loc())
     st = repo.func("types/packed.py", "_struct")
     used = names_loaded(ast.Module(body=st.node.body, type_ignores=[]))
     rep.check(len(st.params) == 2 and set(st.params) <= used and any("lru_cache" in norm(d) for d in st.node.decorator_list), rid, f"{st.key}:key",
@@ -114,7 +118,7 @@ def call_time_rule(repo: Repo, rep: Report, rid: str) -> None:
                 a0 = n.args[0] if n.args else None
                 rep.check(a0 is not None and norm(a0).endswith(".cs.endian"), rid, f"{fi.key}:{short(n, 60)}", "passes the live endianness",
                           f"_struct is called with '{norm(a0)}' instead of <cls>.cs.endian", fi.loc(n))
-    rep.floor(rid, "_struct call sites", ns, 5)
+    rep.floor(rid, "_struct call sites", ns, 1)
     rep.floor(rid, "cached functions", nc, 1)
 
     # templates: endianness only as the runtime expression cls.cs.endian, never through a hole
@@ -181,6 +185,48 @@ def maps_rule(repo: Repo, rep: Report, rid: str) -> None:
         rep.check(ev == o, rid, f"utils.py:ENDIANNESS_MAP[{k!r}]", f"{ev}", f"ENDIANNESS_MAP[{k!r}] is {ev!r}, expected {o!r}", path)
         rep.check(wv is not None and wv.lower().replace("_", "-") == enc, rid, f"types/wchar.py:Wchar.__encoding_map__[{k!r}]", f"{wv}",
                   f"Wchar.__encoding_map__[{k!r}] is {wv!r}, expected {enc!r} (same order as ENDIANNESS_MAP)", repo.module("types/wchar.py").path)
+    # every other mapping that translates the live endianness must know the same keys with the same meaning
+    def literal_of(fi, e: ast.AST):
+        c = chain(e)
+        if c is None:
+            return None
+        if len(c) == 1:
+            for mod in [fi.module] + list(repo.modules.values()):
+                if c[0] in mod.assigns and isinstance(mod.assigns[c[0]], ast.Dict):
+                    return mod.assigns[c[0]]
+        if c[-1] in ("__encoding_map__",):
+            return class_attr(repo, "Wchar", "__encoding_map__")
+        for ci in repo.classes.values():
+            if c[-1] in ci.attrs and isinstance(ci.attrs[c[-1]], ast.Dict):
+                return ci.attrs[c[-1]]
+        return None
+
+    for fi in repo.all_functions():
+        for x in walk_body(fi.node.body):
+            container = None
+            if isinstance(x, ast.Subscript) and norm(x.slice).endswith(".endian"):
+                container = x.value
+            elif isinstance(x, ast.Call) and isinstance(x.func, ast.Attribute) and x.func.attr == "get" and x.args and norm(x.args[0]).endswith(".endian"):
+                container = x.func.value
+            if container is None:
+                continue
+            lit = literal_of(fi, container)
+            if lit is None:
+                rep.note(f"{fi.key}: mapping '{norm(container)}' indexed by the endianness could not be resolved to a literal (not judged)")
+                continue
+            items = {k: v for k, _, v in dict_items(lit)}
+            probs = []
+            for k, (o, enc) in expect.items():
+                if k not in items:
+                    probs.append(f"key {k!r} is missing" + (" (falls back to the .get default)" if isinstance(x, ast.Call) else " (KeyError)"))
+                    continue
+                val = str(const_value(items[k])).lower() if is_const(items[k]) else norm(items[k]).lower()
+                is_little = "little" in val or val.endswith("le") or val.endswith("-le")
+                is_big = "big" in val or val.endswith("be")
+                if (o == "little") != is_little or (o == "big") != is_big:
+                    probs.append(f"key {k!r} maps to {val!r}, expected {o}-endian")
+            rep.check(not probs, rid, f"{fi.key}:{short(x, 60)}", f"'{norm(container)}' knows '<', '>' and '!' with the standard meaning",
+                      f"'{short(x, 60)}': {'; '.join(probs)} - types using this map would disagree with the rest of the library under that endianness", fi.loc(x))
     # consumers subscript the maps with the live endianness
     n = 0
     for fi in repo.all_functions():
@@ -189,7 +235,7 @@ def maps_rule(repo: Repo, rep: Report, rid: str) -> None:
                 n += 1
                 rep.check(norm(x.slice).endswith(".cs.endian"), rid, f"{fi.key}:{short(x, 60)}", "indexed by the live endianness",
                           f"'{short(x, 60)}' is not indexed by <cls>.cs.endian", fi.loc(x))
-    rep.floor(rid, "map consumers", n, 6)
+    rep.floor(rid, "map consumers", n, 2)
 
 
 def leb128_rule(repo: Repo, rep: Report, rid: str) -> None:
